@@ -52,6 +52,40 @@ var handWritten = []string{
 	"SELECT * FROM t FOR UPDATE",
 	"SELECT 'it''s', 'a\\nb', '\\\\', 0x1F, X'1F', 1.5e3, .5, 1e-2 FROM t",
 	"SELECT a AS 'string alias', b 'other' FROM t",
+	// statements inherited from the MySQL grammar (accepted by Parse, not used by OctoSQL)
+	"insert into t (a, b) values (1, 'x'), (2, null)",
+	"insert ignore into db.t select a, b from u on duplicate key update a = values(a)",
+	"replace into t set a = 1, b = 2",
+	"update t set a = a + 1, b = 'x' where id in (1, 2) order by id desc limit 3",
+	"update t join u on t.id = u.id set t.a = u.a",
+	"delete from t where a < 10 order by a limit 2",
+	"delete t, u from t join u on t.id = u.id where u.x is null",
+	"create table t (id int primary key, name varchar(20) not null default 'x', ts timestamp)",
+	"create table if not exists db.t like db.u",
+	"alter table t add column c int",
+	"alter table t rename to u",
+	"drop table if exists t",
+	"rename table a to b",
+	"truncate table t",
+	"create view v as select a from t",
+	"show tables",
+	"show databases like 'x%'",
+	"show create table t",
+	"show full columns from t",
+	"set @a = 1, autocommit = on",
+	"set names utf8",
+	"set session transaction isolation level repeatable read",
+	"use db",
+	"begin",
+	"commit",
+	"rollback",
+	"analyze table t",
+	"select next 3 values from seq",
+	"stream * from t",
+	"select group_concat(distinct a order by b desc separator ', ') from t",
+	"select match(a, b) against ('x' in boolean mode) from t",
+	"select a from t where a = any_value(b) lock in share mode",
+	"select sql_no_cache straight_join a from t use index (i) force index (j)",
 }
 
 type gen struct {
